@@ -1514,6 +1514,18 @@ class Models:
             return self.decide_same_unit(a.uid, b.uid, node)
         if isinstance(a, StrV) and isinstance(b, StrV) and a.const is not None and b.const is not None:
             return a.const == b.const
+        if isinstance(a, StrV) and isinstance(b, StrV) and a.const is None and b.const is None and a.tag and b.tag:
+            if a.tag == b.tag:
+                return True
+            import re as _re
+            ma, mb = _re.fullmatch(r"symbol\((.+)\)", a.tag), _re.fullmatch(r"symbol\((.+)\)", b.tag)
+            if ma and mb and ma.group(1) in self.st.uparent and mb.group(1) in self.st.uparent:
+                # symbols are unique: two units have the same symbol exactly when they are one unit
+                return self.decide_same_unit(ma.group(1), mb.group(1), node)
+        if isinstance(a, ClsV) and isinstance(b, ClsV):
+            t = self.st.same_type(a.tid, b.tid)
+            if t is not None:
+                return t
         if isinstance(a, NoneV) or isinstance(b, NoneV):
             return isinstance(a, NoneV) and isinstance(b, NoneV)
         if isinstance(a, EnumV) and isinstance(b, EnumV):
@@ -1634,6 +1646,11 @@ class Models:
             if not memo[(a, b)]:
                 I.raise_("KeyError", node)
             return TupleV([Num(RF.atom(("tf", a, b)), "exact"), Num(RF.atom(("to", a, b)), "exact")])
+        if self.is_memo_map(g):
+            hit = self.memo_stored(g, key, node)
+            if hit is not None:
+                st.oracle.trace.append(f"{g.name}: entry stored earlier on this path")
+                return hit[0]
         if isinstance(key, TupleV) and any(k_ is key for k_ in getattr(g, "hit_keys", [])):
             o = OpaqueV("cache-hit")
             o.key = key
@@ -1646,6 +1663,10 @@ class Models:
                     o = OpaqueV("cache-hit")
                     o.key = key
                     return o
+            I.raise_("KeyError", node)
+        if isinstance(key, (StrV, OpaqueV)) and self.is_memo_map(g) and not getattr(g, "record_types", None):
+            # a memo keyed by text: nothing stored on this path under that key - Engine A follows the miss (what a
+            # hit returns is what an earlier call stored: the replayed cases evaluate that)
             I.raise_("KeyError", node)
         if isinstance(key, (StrV, OpaqueV)):
             c = I.choose(2, f"{g.name}[{key!r}]@{getattr(node, 'lineno', '?')}", ["KeyError", "found"])
@@ -1670,8 +1691,15 @@ class Models:
                             out.append(OpaqueV(f"{g.name}.{i}"))
                     return TupleV(out)
                 return OpaqueV(f"record({g.name})")
-            tid = st.tfind(owner.tid) if owner is not None else st.new_type()
-            u = UnitV(st.new_unit(tid))
+            # the directory answers the same symbol with the same unit
+            sk = (g.name, key.const if isinstance(key, StrV) and key.const is not None else getattr(key, "tag", None))
+            uid = st.found_units.get(sk) if sk[1] is not None else None
+            if uid is None:
+                tid = st.tfind(owner.tid) if owner is not None else st.new_type()
+                uid = st.new_unit(tid)
+                if sk[1] is not None:
+                    st.found_units[sk] = uid
+            u = UnitV(uid)
             u.from_symbol = key
             return u
         # any other process-global mapping (a memo): what was stored on this path is found again, anything else is
@@ -1681,6 +1709,30 @@ class Models:
                     self.keys_equal(e[2], key, node):
                 return e[3]
         I.raise_("KeyError", node)
+
+    def is_memo_map(self, g) -> bool:
+        """A process-global mapping that is neither a directory of units / types, nor a table filled at import, nor a
+        per-type map: a memo written at run time."""
+        return not (getattr(g, "registry", False) or getattr(g, "convtable", False) or getattr(g, "unit_values", False)
+                    or getattr(g, "owner", None) is not None or g.name.startswith("_unit_map("))
+
+    def memo_stored(self, g, key, node):
+        """(value,) stored under an equal key earlier on this path and not removed since, else None."""
+        if self.st.memo_hidden:
+            return None
+        for e in list(reversed(self.st.effects)) + list(reversed(self.st.prior_effects)):
+            if e[0] == "mapcall" and isinstance(e[1], GlobalMapV) and e[1].name == g.name and e[2] in ("clear",):
+                return None
+            if e[0] == "mapcall" and isinstance(e[1], GlobalMapV) and e[1].name == g.name and \
+                    e[2] in ("pop", "popitem", "discard", "remove"):
+                if e[2] == "popitem" or (e[3] and self.keys_equal(e[3][0], key, node)):
+                    return None
+            if e[0] == "delitem" and isinstance(e[1], GlobalMapV) and e[1].name == g.name and self.keys_equal(e[2], key, node):
+                return None
+            if e[0] == "setitem" and isinstance(e[1], GlobalMapV) and e[1].name == g.name and \
+                    self.keys_equal(e[2], key, node):
+                return (e[3],)
+        return None
 
     def term_view(self, t, node, depth=0):
         """Abstract view (value, dimension vector) of an interpreted Term object."""
@@ -1729,7 +1781,18 @@ class Models:
         can_zero, must_zero = self.dims_zero(key)
         if must_zero:
             I.raise_("KeyError", node)
-        c = I.choose(2, f"unit_from_term@{getattr(node, 'lineno', '?')}", ["KeyError", "found"])
+        mk = (g.name, st.norm(key.mag).key(), tuple(sorted((st.tfind(k_), e_) for k_, e_ in self.norm_dims(key.dims).items()
+                                                             if e_ != (0, 0))))
+        memo = st.lookup_memo
+        if mk[1:] in st.never_found:
+            st.known_absent.add((g.name, st.norm(key.mag).key()))
+            I.raise_("KeyError", node)
+        if st.oracle.sticky is not None and mk in memo:
+            c = memo[mk]        # the same look-up in the same state finds the same
+            st.oracle.trace.append(f"unit_from_term@{getattr(node, 'lineno', '?')}={'found' if c else 'KeyError'} (as before)")
+        else:
+            c = I.choose(2, f"unit_from_term@{getattr(node, 'lineno', '?')}", ["KeyError", "found"], sticky=False)
+            memo[mk] = c
         if c == 0:
             st.known_absent.add((g.name, st.norm(key.mag).key()))
             I.raise_("KeyError", node)
@@ -1763,8 +1826,12 @@ class Models:
                 tid = st.new_type()
                 self.dim_types[dk] = tid
                 st.type_dims[tid] = dict(nz)
-        u = UnitV(st.new_unit(tid, mu=t.mag))
-        return u
+        # the directory answers the same look-up with the same unit
+        fk = (st.tfind(tid) if tid in st.tparent else tid, st.norm(t.mag).key())
+        uid = st.found_units.get(fk)
+        if uid is None:
+            uid = st.found_units[fk] = st.new_unit(tid, mu=t.mag)
+        return UnitV(uid)
 
     def norm_dims(self, dims):
         out: Dict[str, tuple] = {}
